@@ -166,5 +166,15 @@ CHECKS["C16"] = dict(
          "away. Every received segment is a trace event (offset by position code, count of foreign bytes); TLC accepts a session only if segments are contiguous, within what was sent, unaltered, complete, "
          "and the blocked Read returned. CLI and NETCONF driver sessions over each transport must give the results of the in-memory pipe.",
     note="Kernel pty/TCP and OpenSSH are outside any model (DESIGN.md §7): the model states the contract, the traces come from the real stack. Known finding: system transport + NETCONF leaves the pty cooked.")
+CHECKS["C17"] = dict(
+    category="model_checking", design_ref="DESIGN.md §5 C17, §11",
+    technique="TLA+/TLC: Platform.tla evaluates well-formedness of every advertised definition and variant as exported by the real loader, and runs the AcquirePriv loop model (Privilege.tla's step with the "
+              "definition's tree and the acceptance relation computed with the real regexes) on every level pair; pairs that succeed under every map order are driven on the real driver against a device built from the definition",
+    text="Export: for each advertised name and variant the loader's result (driver type, levels, default level, steps), a canonical prompt per level sampled from its pattern, whether own and joined pattern "
+         "accept it, which levels' matchers accept which prompts, hand-written typical prompts per level (spec/platform_prompts.json) that must keep matching, step well-formedness, and the comparison of a "
+         "variant's merged sections with the file; also every embedded definition must be reachable through an advertised name. TLC checks WellFormed for all and explores all (start, target) pairs with the "
+         "map-order fallback as nondeterminism. The harness opens each platform against the definition-derived device (on-open steps observed), visits all deterministic pairs, closes (on-close steps "
+         "observed) and checks that user options layered on the definition win.",
+    note="Trusted: TLC, regexp/syntax-based prompt sampler, yaml.v3 for the independent reading of the files. One genuine defect repaired (ruijie_rgos asset misnamed).")
 PENDING_REASON = "check not built yet in this session (work in progress; see DESIGN.md §5 for the planned TLA+ specification and binding)"
 NOT_APPLICABLE = {}
